@@ -33,11 +33,12 @@ func zzWrap(kind int, inner Block) Block {
 
 // zzJumpValid is the WGSL rule (9.4 control flow) for a break / continue / return placed
 // inside the nest `wrappers` (outermost first):
-//   break    - the innermost enclosing switch or loop must exist; if it is a loop, the break
-//              must not sit in that loop's continuing block;
-//   continue - the innermost enclosing loop must exist and the continue must not sit in its
-//              continuing block;
-//   return   - must not be inside any continuing block.
+//
+//	break    - the innermost enclosing switch or loop must exist; if it is a loop, the break
+//	           must not sit in that loop's continuing block;
+//	continue - the innermost enclosing loop must exist and the continue must not sit in its
+//	           continuing block;
+//	return   - must not be inside any continuing block.
 func zzJumpValid(jump int, wrappers []int) bool {
 	switch jump {
 	case 0: // break
